@@ -35,6 +35,7 @@ func init() {
 		ruleORD1b(w, r)
 		ruleORD4(w, r)
 		ruleORD4b(w, r)
+		ruleORD9(w, r)
 		ruleORD5(w, r)
 		ruleORD6(w, r)
 		ruleORD8(w, r)
@@ -53,6 +54,9 @@ func init() {
 		ruleCDC8(w, r)
 		ruleORD2c(w, r)
 		ruleORD1b(w, r) // VImport's log bypass and VCompress rely on SaveSnapshot really saving
+		ruleORD1(w, r)  // a write that lands between the snapshot's capture and the truncation is in neither
+		ruleORD4(w, r)  // … nor may the shadow-buffered writes be dropped
+		ruleORD9(w, r)  // … nor a write that was journaled before snapshot mode and applied after the capture
 	})
 }
 
@@ -63,7 +67,9 @@ func init() {
 		ruleGRDorder(w, r)
 		ruleGRDxlate(w, r)
 		ruleGRDscope(w, r)
-		ruleSIBviews(w, r) // graph-scoped search reads the reverse view: both views must agree
+		ruleSIBviews(w, r)    // graph-scoped search reads the reverse view: both views must agree
+		ruleGRDdupcheck(w, r) // no duplicates: one live node per external id
+		ruleORDdel(w, r)      // a deleted vector takes its secondary-index entries with it (text/filter hits)
 	})
 }
 
@@ -83,10 +89,12 @@ func init() {
 		ruleCDC9(w, r)
 		ruleCDC123(w, r, map[string]bool{"GLINK": true, "GUNLINK": true})
 		ruleCDC4(w, r, map[string]bool{"GLINK": true, "GUNLINK": true})
+		ruleGRDtime(w, r)
 	})
 	register("C11", "graph queries compute exact bounded reachability and shortest paths", func(w *World, r *Report) {
 		ruleGRDbfs(w, r, []bfsSpec{{"pkg/engine", "Engine.resolveGraphFilter", true}, {"pkg/engine", "Engine.VExtractSubgraph", true}, {"pkg/engine", "Engine.FindPath", false}}, "GRD-bfs")
 		ruleGRDpath(w, r)
+		ruleGRDtime(w, r)
 	})
 	register("C12", "deleting a node leaves no live edge to or from it", func(w *World, r *Report) {
 		ruleSIB4(w, r)
@@ -103,6 +111,7 @@ func init() {
 		ruleLCK6(w, r)
 		ruleLCK7(w, r, lr)
 		ruleLCK8(w, r)
+		ruleGRDdupcheck(w, r)
 		ruleORD8b(w, r)
 		ruleGRDclosed(w, r, lr)
 		ruleORD6(w, r)
@@ -119,6 +128,7 @@ func init() {
 		lr := w.lockAnalysis()
 		ruleGRDrmw(w, r, lr)
 		ruleLCK8(w, r) // an acknowledged insert must not vanish when the node array grows
+		ruleGRDdupcheck(w, r)
 	})
 }
 
@@ -135,6 +145,8 @@ func init() {
 		ruleGRDreinforce(w, r)
 		lr := w.lockAnalysis()
 		ruleGRDrmw(w, r, lr)
+		ruleGRDdecayall(w, r)
+		ruleSIBmetatypes(w, r)
 	})
 }
 
@@ -144,7 +156,9 @@ func init() {
 		ruleSIBroles(w, r)
 		ruleWEBauth(w, r)
 		ruleWEB4(w, r)
-		ruleJRN12(w, r, func(sc sinkCall) bool { return relPkg(sc.fi.Obj) == "pkg/auth" || relPkg(sc.fi.Obj) == "internal/server" })
+		ruleJRN12(w, r, func(sc sinkCall) bool {
+			return relPkg(sc.fi.Obj) == "pkg/auth" || relPkg(sc.fi.Obj) == "internal/server"
+		})
 	})
 }
 
